@@ -19,7 +19,7 @@ def concrete_classes():
     out = {}
 
     def visit(c):
-        if 'from_bitarray' in c.__dict__:
+        if any('from_bitarray' in k.__dict__ for k in c.__mro__[:c.__mro__.index(M.Payload)]):
             for sub in M.__dict__.values():
                 if isinstance(sub, type) and sub.__name__.startswith(c.__name__) and sub is not c \
                         and issubclass(sub, M.Payload):
